@@ -129,4 +129,25 @@ META["C08"] = {
     "note": _CLUSTER_NOTE, "technique": "TLA+ cluster model (TLC) + trace validation of stop/reopen at every prefix incl. process exit status",
 }
 
+META["C10"] = {
+    "text": "Cluster.tla has ApplyCompute and ApplyPersist as separate steps with Query enabled in between only in the pinned variant "
+            "(QueryExcludesApply = FALSE), for which TLC finds the mixed-state reply; the intended variant satisfies QueryConsistent. On the "
+            "real node the gated store holds the store write of an insertion while concurrent goroutines issue membership queries for old "
+            "and in-flight events at all versions and consistency queries for pairs including in-flight versions; each reply must be a "
+            "clean error or a proof that verifies against the snapshots acknowledged for the versions it names, be computed from ONE prefix "
+            "the node could hold (before or after the insertion), and no query may fail internally or hang; TLC validates every reply.",
+    "note": _CLUSTER_NOTE + " The data-race clause is a memory-model property outside TLA+: not decided here (the drivers can be built with -race manually).",
+    "technique": "TLA+ compute/persist window model (TLC) + gated-store schedule replay with TLC trace validation of every reply",
+}
+META["C16"] = {
+    "text": "BackupExact (a backup records the version of the store it captures) is an invariant of Cluster.tla; the variant where Backup "
+            "runs mid-apply violates it. Real code: random add/backup/delete sequences (TLC checks recorded version = version of the "
+            "captured store, listing = existing backups, delete removes only the named one, also for backups taken inside the held "
+            "compute->persist window); then every existing backup is restored into a fresh directory and opened as a new node: reported "
+            "version, membership + consistency of its v+1 events against the ORIGINAL snapshots, later events unknown, and the next "
+            "insertion must get version v+1 with the canonical digests of the forked log.",
+    "note": _CLUSTER_NOTE + " A backup of an empty log (no version exists) is not judged.",
+    "technique": "TLA+ backup invariant (TLC) + trace validation of backup/list/delete/restore on real nodes",
+}
+
 NOT_APPLICABLE = {}
